@@ -1,5 +1,5 @@
 (* XmlFmtProofs4 -- what every handler of the XML formatter does to the working tree
-   (text_tags = [], use_replace = false): invariants and the REJECT refinement.
+   (text_tags = [], use_replace or not; strings read with a maker S, see XmlFmtProofs3): invariants and the REJECT refinement.
 
    * [winv]      the working tree is a run tree (every text and tail is a run over the
                  wrapper placeholders), carries no wrapper tag, its root is not marked
@@ -16,7 +16,7 @@
 From Coq Require Import List NArith ZArith Bool Arith Lia.
 Import ListNotations.
 Require Import XV.Str XV.Json XV.TextFormat XV.Forest XV.Matcher XV.Differ XV.Path XV.WF XV.AttrProofs XV.XmlFmt XV.Projections
-               XV.XmlFmtProofs0 XV.XmlFmtProofs1 XV.XmlFmtProofs2 XV.XmlFmtProofs3.
+               XV.XmlFmtProofs0 XV.XmlFmtProofs1 XV.XmlFmtProofs2 XV.XmlFmtProofsR2 XV.XmlFmtProofs3.
 Require XV.Placeholder XV.PlaceholderUndo.
 Require XV.DMP XV.DMPBase.
 Local Open Scope nat_scope.
@@ -68,6 +68,14 @@ End Local.
 (* ------------------------------------------------------------------ *)
 (** * The invariant *)
 
+Section WithS.
+(* the maker the strings of the working tree are read with (see XmlFmtProofs3) *)
+Variable S : pstate.
+Hypothesis HS : tinv S.
+Local Notation is_run := (XmlFmtProofs3.is_run S).
+Local Notation run_tree := (XmlFmtProofs3.run_tree S).
+Local Notation rstr := (XmlFmtProofs1.rstr S).
+
 Definition own_run (t : xtree) : Prop := is_run (otxt (xtext t)) /\ is_run (xtail t).
 Definition own_clean (t : xtree) : Prop := wrapper_kind t = None.
 
@@ -117,12 +125,18 @@ Record winv (W : xtree) : Prop := {
 
 Lemma is_run_plain x : plain x -> is_run x.
 Proof.
-  intros H. exists [(DMP.EQUAL, x)]. split; [constructor; [exact H|constructor]|].
-  unfold enc. cbn. now rewrite app_nil_r.
+  intros H. exists [PS (DMP.EQUAL, x)]. split; [constructor; [exact H|constructor]|].
+  unfold encp. cbn. now rewrite app_nil_r.
 Qed.
 
-Lemma is_run_enc d : Forall (fun sg : DMP.op * str => plain (snd sg) /\ snd sg <> []) d -> is_run (enc d).
-Proof. intros H. exists d. split; [|reflexivity]. eapply Forall_impl; [|exact H]. intros a [Ha _]. exact Ha. Qed.
+Lemma is_run_encp d : Forall (piece_ok S) d -> is_run (encp d).
+Proof. intros H. exists d. split; [exact H|reflexivity]. Qed.
+
+Lemma rstr_plain x : plain x -> rstr x = x.
+Proof.
+  intros H. pose proof (rstr_encp S [PS (DMP.EQUAL, x)] HS ltac:(constructor; [exact H|constructor])) as E.
+  unfold encp, pt1 in E. cbn in E. now rewrite !app_nil_r in E.
+Qed.
 
 (* ------------------------------------------------------------------ *)
 (** * The rejected view without attributes *)
@@ -429,7 +443,6 @@ Section Steps2.
 Variable c : cfg.
 Variable o : oracle.
 Variable rootns : list (option str * str).
-Hypothesis Hrep : c_replace c = false.
 Let ws := ws_text c.
 
 Lemma own_of_run n : run_tree n -> is_run (otxt (xtext n)) /\ is_run (xtail n) /\ Forall run_tree (xkids n).
@@ -443,11 +456,62 @@ Lemma vr_text_tail ws0 n n' :
   ntxt ws0 (rstr (xtail n')) = ntxt ws0 (rstr (xtail n)) -> vr ws0 n' = vr ws0 n.
 Proof. intros H1 H2 H3 H4. apply vr_same. unfold same_r. rewrite H1, H2, H3, H4. auto. Qed.
 
-Theorem step_reject st d st' :
-  winv (fs_tree st) -> fs_ph st = ph_init -> step_ok rootns st d -> handle_d c o rootns st d = FOk st' ->
-  winv (fs_tree st') /\ fs_ph st' = ph_init /\ vr ws (fs_tree st') = vr ws (fs_tree st).
+(* the maker has room for the diff:replace openers of one text update (one per replaced segment at most, hence at most
+   one per character of the new text); only asked with use_replace *)
+Definition room_ok (st : fstate) (d : dact) : Prop :=
+  match d with
+  | DTextIn _ t | DTextAfter _ t =>
+      c_replace c = true -> (Placeholder.ctr (fs_ph st) + N.of_nat (length (norm_if c (otxt t))) <= Placeholder.PUA_END)%N
+  | _ => True
+  end.
+
+(* the maker after the step: still without text-tag placeholders, and it has only grown *)
+Definition ph_step (st st' : fstate) : Prop := tinv (fs_ph st') /\ sext (fs_ph st) (fs_ph st').
+
+Lemma upd_node_ph st p f st' : upd_node st p f = FOk st' -> fs_ph st' = fs_ph st.
+Proof. intros H. apply upd_node_inv in H as (n & n' & _ & _ & ->). reflexivity. Qed.
+
+(* the maker along one step: only the two text handlers touch it, and they only add diff:replace openers *)
+Theorem step_ph st d st' :
+  tinv (fs_ph st) -> step_ok rootns st d -> room_ok st d -> handle_d c o rootns st d = FOk st' -> ph_step st st'.
 Proof.
-  intros HW Hph Hok H. destruct d; cbn [handle_d step_ok] in *.
+  intros Hph0 Hok Hroom H.
+  assert (Same : fs_ph st' = fs_ph st -> ph_step st st').
+  { intros E. unfold ph_step. rewrite E. split; [exact Hph0|apply sext_refl]. }
+  destruct d; cbn [handle_d step_ok room_ok] in *;
+    try (unfold handle_DeleteNode, handle_InsertNode, handle_RenameNode, handle_UpdateAttrib, handle_DeleteAttrib,
+           handle_InsertAttrib, handle_RenameAttrib in H;
+         apply fbind_ok in H as (p & _ & H); apply Same, (upd_node_ph _ _ _ _ H)).
+  - (* MoveNode *)
+    unfold handle_MoveNode in H. apply fbind_ok in H as (pn & _ & H). apply fbind_ok in H as (cp & _ & H).
+    apply fbind_ok in H as (pt & _ & H). cbv zeta in H. apply fbind_ok in H as (tg0 & _ & H). inversion H; subst st'. apply Same. reflexivity.
+  - (* UpdateTextIn *)
+    destruct Hok as [Htxt Hold]. unfold handle_UpdateTextIn in H. apply fbind_ok in H as (p & Ep & H).
+    unfold node_at in H. destruct (get_at (fs_tree st) p) as [n|] eqn:G; [|discriminate]. cbn [fbind] in H.
+    destruct (is_inserted n) eqn:Ei; [inversion H; subst st'; apply Same; reflexivity|].
+    destruct (make_diff_tags_gen c o (fs_ph st) _ _ false Hph0 (Hold p n Ep G Ei) Htxt Hroom)
+      as (s' & d & Em & Hs' & Xs' & _).
+    rewrite Em in H. cbn [fbind] in H. inversion H; subst st'. split; assumption.
+  - (* UpdateTextAfter *)
+    destruct Hok as [Htxt Hold]. unfold handle_UpdateTextAfter in H. apply fbind_ok in H as (p & Ep & H).
+    unfold node_at in H. destruct (get_at (fs_tree st) p) as [n|] eqn:G; [|discriminate]. cbn [fbind] in H.
+    destruct (Hold p n Ep G) as [Hp Hpl]. destruct p as [|i p]; [congruence|].
+    destruct (make_diff_tags_gen c o (fs_ph st) _ _ true Hph0 Hpl Htxt Hroom) as (s' & d & Em & Hs' & Xs' & _).
+    rewrite Em in H. cbn [fbind] in H. inversion H; subst st'. split; assumption.
+  - (* InsertNamespace *)
+    unfold handle_InsertNamespace in H. inversion H; subst st'. apply Same. reflexivity.
+  - (* DeleteNamespace *)
+    inversion H; subst st'. apply Same. reflexivity.
+Qed.
+
+Theorem step_reject st d st' :
+  winv (fs_tree st) -> tinv (fs_ph st) -> sext (fs_ph st') S -> step_ok rootns st d -> room_ok st d ->
+  handle_d c o rootns st d = FOk st' ->
+  winv (fs_tree st') /\ ph_step st st' /\ vr ws (fs_tree st') = vr ws (fs_tree st).
+Proof.
+  intros HW Hph0 HX Hok Hroom H.
+  assert (Hph : forall t ns, ph_step st (FS t (fs_ph st) ns)) by (intros; split; [exact Hph0|apply sext_refl]).
+  destruct d; cbn [handle_d step_ok room_ok] in *.
   - (* DeleteNode *)
     unfold handle_DeleteNode in H. apply fbind_ok in H as (p & Ep & H).
     apply upd_node_inv in H as (n & n' & G & E & ->). inversion E; subst n'. cbn [fs_tree fs_ph].
@@ -460,7 +524,7 @@ Proof.
     set (new := XNode tag [(INSERT_NAME, [])] None [] []).
     assert (Hdead : alive_r new = false) by reflexivity.
     assert (A : alive_r (h_InsertNode n tag pos) = alive_r n) by (destruct n; reflexivity).
-    split; [|split; [exact Hph|]].
+    split; [|split; [apply Hph|]].
     + apply (winv_map_at _ p n _ HW G); [| |exact A|destruct n; reflexivity].
       * destruct n. constructor; cbn in *; auto. apply Forall_insert_kid; [exact R3|].
         constructor; [apply is_run_plain; reflexivity|apply is_run_plain; reflexivity|constructor].
@@ -479,7 +543,7 @@ Proof.
     assert (A : alive_r (h_RenameNode n tag) = alive_r n).
     { destruct n as [ntg nat_ ntx ntl nks]. unfold alive_r, is_inserted, ahas, h_RenameNode. cbn [with_tag with_attrs xattrs xtag].
       rewrite aget_aput_other; [reflexivity|]. intros E0; apply dname_inj in E0; discriminate. }
-    split; [|split; [exact Hph|]].
+    split; [|split; [apply Hph|]].
     + apply (winv_map_at _ p n _ HW G); [| |exact A|destruct n; reflexivity].
       * destruct n. constructor; cbn in *; auto.
       * destruct n. constructor; [|exact C2]. rewrite wrapper_kind_tag. exact Htag.
@@ -507,7 +571,7 @@ Proof.
     assert (Hdead : alive_r ins = false).
     { unfold ins, alive_r, is_inserted, ahas. destruct copy. cbn [with_attrs xattrs]. now rewrite aget_aput, str_eqb_refl. }
     assert (A : alive_r (with_kids tgn (insert_kid real ins (xkids tgn))) = alive_r tgn) by (destruct tgn; reflexivity).
-    split; [|split; [exact Hph|]].
+    split; [|split; [apply Hph|]].
     + apply (winv_map_at _ pt tgn _ I1 Gt); [| |exact A|destruct tgn; reflexivity].
       * destruct tgn. constructor; cbn in *; auto. apply Forall_insert_kid; [exact R3|].
         unfold ins. destruct copy. inversion Rc; subst. constructor; assumption.
@@ -527,25 +591,25 @@ Proof.
     + inversion H; subst st'. clear H. cbn [fs_tree fs_ph].
       rewrite (map_at_ext p _ (fun _ => with_text n t) (fs_tree st)) by (intros n0 Hn0; congruence).
       assert (A : alive_r (with_text n t) = alive_r n) by (destruct n; reflexivity).
-      split; [|split; [exact Hph|]].
+      split; [|split; [apply Hph|]].
       * apply (winv_map_at _ p n _ HW G); [| |exact A|destruct n; reflexivity].
         -- destruct n. constructor; cbn in *; auto. apply is_run_plain, Htxt.
         -- destruct n. constructor; assumption.
       * apply (reject_map_at ws _ p n _ HW G A). unfold alive_r. rewrite Ei. discriminate.
-    + rewrite Hph in H. apply fbind_ok in H as ([[s' out] any] & Em & H).
-      destruct (make_diff_tags_spec c o _ _ false _ Hrep (Hold eq_refl) Htxt Em) as (d & Er & T1 & T2 & Fd).
-      inversion Er; subst s' out any. clear Er. inversion H; subst st'. clear H. cbn [fs_tree fs_ph].
-      set (newtext := if match d with [] => false | _ => true end then Some (enc d) else None).
+    + destruct (make_diff_tags_gen c o (fs_ph st) _ _ false Hph0 (Hold eq_refl) Htxt Hroom)
+        as (s' & d & Em & Hs' & Xs' & _ & Fd0 & T1 & T2 & _).
+      rewrite Em in H. cbn [fbind] in H. inversion H; subst st'. clear H. cbn [fs_tree fs_ph] in *.
+      assert (Fd : Forall (piece_ok S) d) by (eapply Forall_impl; [|exact Fd0]; intros a; apply piece_ok_ext, HX).
+      set (newtext := if match d with [] => false | _ => true end then Some (encp d) else None).
       rewrite (map_at_ext p _ (fun _ => with_text n newtext) (fs_tree st)) by (intros n0 Hn0; congruence).
-      assert (Hnt : otxt newtext = enc d) by (unfold newtext; destruct d; reflexivity).
+      assert (Hnt : otxt newtext = encp d) by (unfold newtext; destruct d; reflexivity).
       assert (A : alive_r (with_text n newtext) = alive_r n) by (destruct n; reflexivity).
-      assert (Fp : Forall (fun sg : DMP.op * str => plain (snd sg)) d) by (eapply Forall_impl; [|exact Fd]; intros a [Ha _]; exact Ha).
-      split; [|split; [reflexivity|]].
+      split; [|split; [split; assumption|]].
       * apply (winv_map_at _ p n _ HW G); [| |exact A|destruct n; reflexivity].
-        -- destruct n. constructor; cbn in *; auto. rewrite Hnt. apply is_run_enc, Fd.
+        -- destruct n. constructor; cbn in *; auto. rewrite Hnt. apply is_run_encp, Fd.
         -- destruct n. constructor; assumption.
       * apply (reject_map_at ws _ p n _ HW G A). intros _. apply vr_text_tail; try (destruct n; reflexivity).
-        destruct n as [ntg nat_ ntx ntl nks]. cbn [with_text xtext] in *. rewrite Hnt, (rstr_enc d Fp), T1.
+        destruct n as [ntg nat_ ntx ntl nks]. cbn [with_text xtext] in *. rewrite Hnt, (rstr_encp S d HS Fd), T1.
         rewrite (rstr_plain _ (Hold eq_refl)). apply ntxt_norm_if.
   - (* UpdateTextAfter *)
     destruct Hok as [Htxt Hold].
@@ -556,18 +620,18 @@ Proof.
     rewrite Hm in H. clear Hm.
     pose proof (run_tree_get _ _ _ (wi_run _ HW) G) as R. pose proof (clean_tags_get _ _ _ (wi_tags _ HW) G) as C.
     destruct (own_of_run n R) as (R1 & R2 & R3). destruct (own_of_clean n C) as (C1 & C2).
-    rewrite Hph in H. apply fbind_ok in H as ([[s' out] any] & Em & H).
-    destruct (make_diff_tags_spec c o _ _ true _ Hrep Hpl Htxt Em) as (d & Er & T1 & T2 & Fd).
-    inversion Er; subst s' out any. clear Er. inversion H; subst st'. clear H. cbn [fs_tree fs_ph].
-    rewrite (map_at_ext p _ (fun _ => with_tail n (enc d)) (fs_tree st)) by (intros n0 Hn0; congruence).
-    assert (A : alive_r (with_tail n (enc d)) = alive_r n) by (destruct n; reflexivity).
-    assert (Fp : Forall (fun sg : DMP.op * str => plain (snd sg)) d) by (eapply Forall_impl; [|exact Fd]; intros a [Ha _]; exact Ha).
-    split; [|split; [reflexivity|]].
+    destruct (make_diff_tags_gen c o (fs_ph st) _ _ true Hph0 Hpl Htxt Hroom)
+      as (s' & d & Em & Hs' & Xs' & _ & Fd0 & T1 & T2 & _).
+    rewrite Em in H. cbn [fbind] in H. inversion H; subst st'. clear H. cbn [fs_tree fs_ph] in *.
+    assert (Fd : Forall (piece_ok S) d) by (eapply Forall_impl; [|exact Fd0]; intros a; apply piece_ok_ext, HX).
+    rewrite (map_at_ext p _ (fun _ => with_tail n (encp d)) (fs_tree st)) by (intros n0 Hn0; congruence).
+    assert (A : alive_r (with_tail n (encp d)) = alive_r n) by (destruct n; reflexivity).
+    split; [|split; [split; assumption|]].
     + apply (winv_map_at _ p n _ HW G); [| |exact A|congruence].
-      * destruct n. constructor; cbn in *; auto. apply is_run_enc, Fd.
+      * destruct n. constructor; cbn in *; auto. apply is_run_encp, Fd.
       * destruct n. constructor; assumption.
     + apply (reject_map_at ws _ p n _ HW G A). intros _. apply vr_text_tail; try (destruct n; reflexivity).
-      destruct n as [ntg nat_ ntx ntl nks]. cbn [with_tail xtail] in *. rewrite (rstr_enc d Fp), T1.
+      destruct n as [ntg nat_ ntx ntl nks]. cbn [with_tail xtail] in *. rewrite (rstr_encp S d HS Fd), T1.
       rewrite (rstr_plain _ Hpl). apply ntxt_norm_if.
   - (* UpdateAttrib *)
     unfold handle_UpdateAttrib in H. apply fbind_ok in H as (p & Ep & H).
@@ -597,6 +661,7 @@ Proof.
   - (* InsertNamespace *)
     unfold handle_InsertNamespace in H. inversion H; subst st'. cbn [fs_tree fs_ph]. auto.
   - (* DeleteNamespace *)
-    inversion H; subst st'. auto.
+    inversion H; subst st'. split; [exact HW|]. split; [split; [exact Hph0|apply sext_refl]|reflexivity].
 Qed.
 End Steps2.
+End WithS.
